@@ -267,7 +267,7 @@ func runPure() {
 		out.Op("allowuser", strings.Join(l, ","))
 	}
 	g := &pgen{r: gen.New(gen.Seed())}
-	n := gen.Scale(104000, 1500000)
+	n := gen.Scale(104000, 300000)
 	for i := 0; i < n; i++ {
 		pe := envs[g.r.Pick(55, 45)]
 		pre := g.r.Chance(1, 5)
@@ -354,7 +354,7 @@ func runPure() {
 		}
 	}
 	// local keys
-	m := gen.Scale(20000, 300000)
+	m := gen.Scale(20000, 60000)
 	for i := 0; i < m; i++ {
 		e := g.execer()
 		names := []string{e, specRealName(e), g.execer(), "vfb"}
@@ -617,7 +617,7 @@ func runBlocks() {
 	}
 	r := gen.New(gen.Seed() + 77)
 	g := &bgen{w: w, r: r, pg: &pgen{r: r}}
-	for i := 0; i < gen.Scale(2000, 60000); i++ {
+	for i := 0; i < gen.Scale(2000, 20000); i++ {
 		var us []vfexec.Unit
 		for j := g.r.Range(1, 4); j > 0; j-- {
 			us = append(us, vfexec.Unit{Txs: []vfexec.TxDesc{g.tx()}})
